@@ -285,6 +285,7 @@ func (t *TcpTransport) dialWithScope(ctx context.Context, raddr ma.Multiaddr, p 
 		var err error
 		c, err = newTracingConn(conn, t.metricsCollector, true)
 		if err != nil {
+			conn.Close()
 			return nil, err
 		}
 	}
